@@ -85,58 +85,112 @@ func genOptions() {
 			continue
 		}
 		recv := fd.Recv.List[0].Names[0].Name
-		for _, st := range fd.Body.List {
-			es, ok := st.(*ast.ExprStmt)
-			if !ok {
-				if _, ok := st.(*ast.DeclStmt); ok {
-					continue
-				}
-				if as, ok := st.(*ast.AssignStmt); ok && exprString(as.Lhs[0]) == "flag.Usage" {
-					continue
-				}
-				stages = append(stages, "StOpaque "+coqStr(exprString(st)))
-				problem("flagSet: unrecognised statement %s", exprString(st))
-				continue
-			}
-			call, ok := es.X.(*ast.CallExpr)
-			if !ok {
-				stages = append(stages, "StOpaque "+coqStr(exprString(st)))
-				continue
-			}
-			fun := exprString(call.Fun)
-			switch {
-			case fun == recv+".getEnv":
-				stages = append(stages, "StEnv")
-			case fun == recv+".loadCfg":
-				stages = append(stages, "StFile")
-			case fun == "flag.Parse":
-				stages = append(stages, "StParse")
-			case (fun == "flag.IntVar" || fun == "flag.StringVar" || fun == "flag.BoolVar") && len(call.Args) == 4:
-				target := exprString(call.Args[0])
-				name, _ := strLit(call.Args[1])
-				if strings.HasPrefix(target, "&"+recv+".") {
-					field := strings.TrimPrefix(target, "&"+recv+".")
-					def := exprString(call.Args[2])
-					var d string
-					if def == recv+"."+field {
-						d = "DCurrent"
-					} else if strings.HasPrefix(def, recv+".") {
-						d = "DField " + coqStr(strings.TrimPrefix(def, recv+"."))
-					} else {
-						d = "DConst " + coqStr(def)
+		// names that stand for the default flag set: the package itself (flag.IntVar) and locals / parameters bound to
+		// flag.CommandLine (fs := flag.CommandLine; fs.IntVar; a helper method called with fs)
+		var walk func(list []ast.Stmt, recv string, sets map[string]bool, depth int)
+		walk = func(list []ast.Stmt, recv string, sets map[string]bool, depth int) {
+			for _, st := range list {
+				es, ok := st.(*ast.ExprStmt)
+				if !ok {
+					if ds, ok := st.(*ast.DeclStmt); ok {
+						// var fs = flag.CommandLine
+						if gd, ok := ds.Decl.(*ast.GenDecl); ok {
+							for _, sp := range gd.Specs {
+								if vs, ok := sp.(*ast.ValueSpec); ok {
+									for i, n := range vs.Names {
+										if i < len(vs.Values) && exprString(vs.Values[i]) == "flag.CommandLine" {
+											sets[n.Name] = true
+										}
+									}
+								}
+							}
+						}
+						continue
 					}
-					stages = append(stages, fmt.Sprintf("StReg %s %s (%s)", coqStr(field), coqStr(name), d))
-				} else {
-					stages = append(stages, "StRegOther "+coqStr(name))
+					if as, ok := st.(*ast.AssignStmt); ok && len(as.Lhs) == 1 && len(as.Rhs) == 1 {
+						l, r := exprString(as.Lhs[0]), exprString(as.Rhs[0])
+						if l == "flag.Usage" || strings.HasSuffix(l, ".Usage") && sets[strings.TrimSuffix(l, ".Usage")] {
+							continue
+						}
+						if r == "flag.CommandLine" {
+							sets[l] = true
+							continue
+						}
+					}
+					stages = append(stages, "StOpaque "+coqStr(exprString(st)))
+					problem("flagSet: unrecognised statement %s", exprString(st))
+					continue
 				}
-			case fun == "flag.Var" && len(call.Args) == 3:
-				name, _ := strLit(call.Args[1])
-				stages = append(stages, "StRegOther "+coqStr(name))
-			default:
-				stages = append(stages, "StOpaque "+coqStr(exprString(st)))
-				problem("flagSet: unrecognised call %s", fun)
+				call, ok := es.X.(*ast.CallExpr)
+				if !ok {
+					stages = append(stages, "StOpaque "+coqStr(exprString(st)))
+					continue
+				}
+				fun := exprString(call.Fun)
+				// fs.IntVar(...) with fs the default flag set is flag.IntVar(...)
+				if se, ok := call.Fun.(*ast.SelectorExpr); ok && sets[exprString(se.X)] {
+					fun = "flag." + se.Sel.Name
+				}
+				switch {
+				case fun == recv+".getEnv":
+					stages = append(stages, "StEnv")
+				case fun == recv+".loadCfg":
+					stages = append(stages, "StFile")
+				case fun == "flag.Parse" && (len(call.Args) == 0 || exprString(call.Args[0]) == "os.Args[1:]"):
+					stages = append(stages, "StParse")
+				case (fun == "flag.IntVar" || fun == "flag.StringVar" || fun == "flag.BoolVar") && len(call.Args) == 4:
+					target := exprString(call.Args[0])
+					name, _ := strLit(call.Args[1])
+					if strings.HasPrefix(target, "&"+recv+".") {
+						field := strings.TrimPrefix(target, "&"+recv+".")
+						def := exprString(call.Args[2])
+						var d string
+						if def == recv+"."+field {
+							d = "DCurrent"
+						} else if strings.HasPrefix(def, recv+".") {
+							d = "DField " + coqStr(strings.TrimPrefix(def, recv+"."))
+						} else {
+							d = "DConst " + coqStr(def)
+						}
+						stages = append(stages, fmt.Sprintf("StReg %s %s (%s)", coqStr(field), coqStr(name), d))
+					} else {
+						stages = append(stages, "StRegOther "+coqStr(name))
+					}
+				case fun == "flag.Var" && len(call.Args) == 3:
+					name, _ := strLit(call.Args[1])
+					stages = append(stages, "StRegOther "+coqStr(name))
+				default:
+					// a method of the options themselves that registers a section of the flags: read in place
+					if se, ok := call.Fun.(*ast.SelectorExpr); ok && exprString(se.X) == recv && depth < 3 {
+						var h *ast.FuncDecl
+						for _, d2 := range f.Decls {
+							if x, ok := d2.(*ast.FuncDecl); ok && x.Recv != nil && x.Body != nil && x.Name.Name == se.Sel.Name && x.Name.Name != "flagSet" {
+								h = x
+							}
+						}
+						if h != nil && len(h.Recv.List[0].Names) == 1 {
+							sets2 := map[string]bool{}
+							i := 0
+							if h.Type.Params != nil {
+								for _, fl := range h.Type.Params.List {
+									for _, n := range fl.Names {
+										if i < len(call.Args) && sets[exprString(call.Args[i])] || i < len(call.Args) && exprString(call.Args[i]) == "flag.CommandLine" {
+											sets2[n.Name] = true
+										}
+										i++
+									}
+								}
+							}
+							walk(h.Body.List, h.Recv.List[0].Names[0].Name, sets2, depth+1)
+							continue
+						}
+					}
+					stages = append(stages, "StOpaque "+coqStr(exprString(st)))
+					problem("flagSet: unrecognised call %s", fun)
+				}
 			}
 		}
+		walk(fd.Body.List, recv, map[string]bool{}, 0)
 	}
 	sb.WriteString("(* flagSet(): the stages in source order *)\nDefinition stages : list stage :=\n  [" + strings.Join(stages, ";\n   ") + "].\n")
 	writeIfChanged("Options.v", sb.String())
